@@ -105,25 +105,53 @@ def repo_prog():
     return _PROG[jp]
 
 
+class HelperCrash(Exception):
+    pass
+
+
 def helper(mode, payload, timeout=600):
     jp, hp = lower_repo()
-    r = subprocess.run([hp, mode], input=json.dumps(payload), capture_output=True, text=True, timeout=timeout)
+    try:
+        r = subprocess.run([hp, mode], input=json.dumps(payload), capture_output=True, text=True, timeout=timeout)
+    except subprocess.TimeoutExpired:
+        raise HelperCrash('timeout after %ss' % timeout)
     if r.returncode != 0:
-        raise RuntimeError('native helper failed (%s): %s' % (r.returncode, r.stderr[-2000:]))
+        raise HelperCrash('exit %s: %s' % (r.returncode, r.stderr[:400]))
     return [json.loads(l) for l in r.stdout.split('\n') if l.strip()]
+
+
+def helper_each(mode, payload, texts, timeout=20):
+    """run the helper on a batch; if the process dies (Go fatal error such as stack exhaustion cannot be recovered)
+    or hangs, fall back to one process per text and record the crash for that text"""
+    try:
+        p = dict(payload)
+        p['texts'] = texts
+        return helper(mode, p, timeout=max(timeout, 2 * len(texts)))
+    except HelperCrash:
+        out = []
+        for t in texts:
+            p = dict(payload)
+            p['texts'] = [t]
+            try:
+                out.extend(helper(mode, p, timeout=timeout))
+            except HelperCrash as e:
+                msg = str(e)
+                kind = 'stack overflow' if 'stack overflow' in msg or 'goroutine stack exceeds' in msg else ('timeout' if 'timeout' in msg else 'fatal')
+                out.append({'fatal': kind + ': ' + msg[:200], 'panic': 'fatal: ' + kind, 'format_panic': 'fatal: ' + kind, 'gens': [{'panic': 'fatal: ' + kind}]})
+        return out
 
 
 def native_dump(texts):
     out = []
     for i in range(0, len(texts), 200):
-        out.extend(helper('dump', {'texts': texts[i:i + 200]}))
+        out.extend(helper_each('dump', {}, texts[i:i + 200]))
     return out
 
 
 def native_run(texts, orders=(), fmt=False, visit=True, content=False):
     out = []
     for i in range(0, len(texts), 100):
-        out.extend(helper('run', {'texts': texts[i:i + 100], 'orders': [list(o) for o in orders], 'format': fmt, 'visit': visit, 'content': content}))
+        out.extend(helper_each('run', {'orders': [list(o) for o in orders], 'format': fmt, 'visit': visit, 'content': content}, texts[i:i + 100]))
     return out
 
 
@@ -261,6 +289,10 @@ def _(M, a):
 
 @bintr('time.Now')
 def _(M, a):
+    if M.env.get('sym_clock'):
+        k = M.ctl.choose_free(2, 'clock#%d' % M.env.setdefault('clock_n', 0))
+        M.env['clock_n'] += 1
+        return ['time', (2026, 2031)[k]]
     return ['time', M.env.get('year', 2026)]
 
 
